@@ -261,8 +261,9 @@ impl EventGen for GroupElement {
         let mut new_el = self.0.clone();
         new_el.eval_attributes(context)?;
 
-        // push variables onto the stack
-        context.push_element(&self.0);
+        // push variables onto the stack: the attributes as just evaluated in the enclosing
+        // scope (an attribute may refer to an outer variable of its own name: x="{{$x + 1}}")
+        context.push_element(&new_el);
 
         let mut content_bb = None;
         let mut events = OutputList::new();
